@@ -118,8 +118,12 @@ type Store struct {
 	Links    boltz.LinkCollection
 }
 
-// Public: which symbols are marked public (nil = the defaults of the Add* calls)
-func New() *Store {
+func New() *Store { return NewPublic(nil) }
+
+// NewPublic builds the store with the given publicity of its symbols (C20).  pub == nil: the defaults of the Add* calls.
+// Through the public API `id` and the fk symbol `boss` are always public; every other symbol -- scalar, set, the tag map
+// and any dotted symbol -- is public exactly when pub says so.
+func NewPublic(pub func(name string) bool) *Store {
 	st := &Store{BaseStore: boltz.NewBaseStore(boltz.StoreDefinition[*Item]{
 		EntityType:      Type,
 		EntityStrategy:  strategy{},
@@ -127,13 +131,28 @@ func New() *Store {
 		EntityNotFoundF: func(id string) error { return boltz.NewNotFoundError(Type, "id", id) },
 	})}
 	st.InitImpl(st)
-	st.AddExtEntitySymbols() // id createdAt updatedAt tags isSystem
-	st.AddSymbol("s", ast.NodeTypeString)
-	st.AddSymbol("n", ast.NodeTypeInt64)
-	st.AddSymbol("m", ast.NodeTypeInt64)
-	st.AddSymbol("f", ast.NodeTypeFloat64)
-	st.AddSymbol("b", ast.NodeTypeBool)
-	st.AddSymbol("t", ast.NodeTypeDatetime)
+	scalar := func(name string, t ast.NodeType) {
+		if pub == nil || pub(name) {
+			st.AddSymbol(name, t)
+		} else {
+			st.AddEntitySymbol(st.NewEntitySymbol(name, t))
+		}
+	}
+	if pub == nil {
+		st.AddExtEntitySymbols() // id createdAt updatedAt tags isSystem
+	} else {
+		st.AddIdSymbol("id", ast.NodeTypeString)
+		st.AddMapSymbol("tags", ast.NodeTypeAnyType, "tags")
+		if pub("tags") {
+			st.MakeSymbolPublic("tags")
+		}
+	}
+	scalar("s", ast.NodeTypeString)
+	scalar("n", ast.NodeTypeInt64)
+	scalar("m", ast.NodeTypeInt64)
+	scalar("f", ast.NodeTypeFloat64)
+	scalar("b", ast.NodeTypeBool)
+	scalar("t", ast.NodeTypeDatetime)
 	st.AddSetSymbol("roles", ast.NodeTypeString)
 	boss := st.AddFkSymbol("boss", st)
 	_ = boss
@@ -165,8 +184,18 @@ func New() *Store {
 	}
 	st.Child = mk(false, "x")
 	st.ChildExt = mk(true, "xe")
+	if pub != nil {
+		for _, name := range []string{"roles", "peers"} {
+			if pub(name) {
+				st.MakeSymbolPublic(name)
+			}
+		}
+	}
 	return st
 }
+
+// Publish marks a dotted symbol public (the composite must resolve)
+func (st *Store) Publish(name string) { st.MakeSymbolPublic(name) }
 
 func (st *Store) Init(db boltz.Db) error {
 	return db.Update(nil, func(ctx boltz.MutateContext) error {
@@ -297,6 +326,24 @@ func (st *Store) Load(db boltz.Db, ds map[string]any, childOf func(id string) bo
 			e := mkItem(id, true)
 			if err := st.Update(ctx, e, boltz.MapFieldChecker{"boss": struct{}{}, "peers": struct{}{}}); err != nil {
 				return fmt.Errorf("link %s: %w", id, err)
+			}
+		}
+		// an empty set is stored either as an empty bucket or as no bucket at all (a field that was never written):
+		// every other row with an empty set loses the bucket
+		k := 0
+		for _, id := range ids {
+			eb := st.GetEntityBucket(ctx.Tx(), []byte(names[id]))
+			for _, set := range []string{"roles", "peers"} {
+				if sb := eb.GetBucket(set); sb != nil {
+					if key, _ := sb.Cursor().First(); key == nil {
+						if k%2 == 0 {
+							if err := eb.DeleteBucket([]byte(set)); err != nil {
+								return err
+							}
+						}
+						k++
+					}
+				}
 			}
 		}
 		return nil
